@@ -700,10 +700,14 @@ class Interp:
         else:
             self.setattr(obj, tgt.attr, new, tgt)
 
-    def assign(self, target, val, env):
+    def assign(self, target, val, env, local: bool = False):
+        """local: the target is bound in its own scope (comprehension variable), never an outer variable."""
         ctx = self.ctx
         if isinstance(target, ast.Name):
             name = target.id
+            if local:
+                env.vars[name] = val
+                return
             if self.in_generic_local(env):
                 frame = ctx.generic[-1]
                 if name in frame.outer_names and not frame.is_local(name):
@@ -723,9 +727,9 @@ class Interp:
             vals = self.unpack(val, target, env)
             for t, v in zip(target.elts, vals):
                 if isinstance(t, ast.Starred):
-                    self.assign(t.value, v, env)
+                    self.assign(t.value, v, env, local)
                 else:
-                    self.assign(t, v, env)
+                    self.assign(t, v, env, local)
             return
         if isinstance(target, ast.Subscript):
             obj = self.eval(target.value, env)
@@ -1650,7 +1654,7 @@ class Interp:
 
         def body():
             self._comp_ifs(g.ifs, 0, cenv, lambda: self._comp(gens, i + 1, cenv, emit))
-        self.for_each_fn(it, lambda x: self.assign(g.target, x, cenv), body, cenv)
+        self.for_each_fn(it, lambda x: self.assign(g.target, x, cenv, True), body, cenv)
 
     def _comp_ifs(self, ifs, j, env, cont):
         if j == len(ifs):
